@@ -36,7 +36,8 @@ ASSUMPTIONS = ["k-th occurrence of a job in a machine's sequence = k-th operatio
                "hang = more than (n_ops+1)*(n_machines+1)*400 Python calls inside from_job_sequences"]
 STATE_MEASURE = "distinct (instance hash, actor op kind, position) tuples"
 
-ACTORS = ["views", "dispatch_history", "rule_solve", "graph", "env_episode", "cpsat", "schedule_roundtrip", "instance_roundtrip", "solved_graph"]
+ACTORS = ["views", "dispatch_history", "rule_solve", "graph", "env_episode", "cpsat", "schedule_roundtrip", "instance_roundtrip", "solved_graph",
+          "rebuild_from_copies"]
 
 
 def generate(seed, tier):
@@ -243,6 +244,25 @@ def execute_shared(case, ctx):
                     roundtrip_schedule(ctx, inst, jobs, last_complete, rng, i)
             elif actor == "instance_roundtrip":
                 roundtrip_instance(ctx, inst, jobs, rng, i, flex, jim)
+            elif actor == "rebuild_from_copies":
+                # a new instance assembled from copies of this instance's (already numbered) operations,
+                # in a different arrangement: its views must follow ITS layout, and the original stays untouched
+                import copy
+                from job_shop_lib import JobShopInstance
+
+                order = list(range(len(jobs)))
+                rng.shuffle(order)
+                if len(order) > 1 and rng.random() < 0.5:
+                    order = order[:-1]
+                new_jobs = [[copy.deepcopy(op) for op in inst.jobs[j]] for j in order]
+                if rng.random() < 0.3 and len(new_jobs[0]) > 1:
+                    new_jobs[0] = new_jobs[0][1:]
+                    model_jobs = tuple([jobs[order[0]][1:]] + [jobs[j] for j in order[1:]])
+                else:
+                    model_jobs = tuple(jobs[j] for j in order)
+                i2 = JobShopInstance(new_jobs, name="rearranged")
+                check_views(ctx, i2, model_jobs, f"op {i}: instance assembled from copies of numbered operations (jobs {order})")
+                ctx.probe("instance_from_copied_operations")
         except Foreign:
             raise
         except Exception as e:  # noqa: BLE001
